@@ -48,6 +48,14 @@ def validate_doc(doc):
                 walk(v, where + "/%d" % i)
 
     walk(doc, "")
+    ids = {}
+    for path, item in (doc.get("paths") or {}).items():
+        for m, op in (item or {}).items():
+            if isinstance(op, dict) and op.get("operationId") is not None:
+                ids.setdefault(op["operationId"], []).append("%s %s" % (m, path))
+    for k, v in ids.items():
+        if len(v) > 1:
+            probs.append("operationId '%s' is used by %d operations (%s)" % (k, len(v), ", ".join(v[:3])))
     for path, item in (doc.get("paths") or {}).items():
         tvars = re.findall(r"\{([^}]*)\}", path)
         params = [p for p in (item.get("parameters") or []) if p.get("in") == "path"]
@@ -69,12 +77,20 @@ def validate_doc(doc):
     return probs
 
 
+KNOWN_IN_CORPUS = []
+
+
 def run_corpus(tag="corpus"):
+    del KNOWN_IN_CORPUS[:]
     cli = build_cli()
     rdir = new_replay_dir("C03", tag)
     probs, detail = [], {}
-    for name, src in CORPUS.items():
-        r = run_cli(cli, {"main.oal": src}, workdir=os.path.join(rdir, name))
+    import pool
+    progs = {name: {"main.oal": src} for name, src in CORPUS.items()}
+    # plus every program the other checks know to be accepted: whatever is compiled must be closed and well formed
+    progs.update({"pool-" + k.replace("/", "-"): v for k, v in pool.programs().items() if not k.startswith("c03/")})
+    for name, files in progs.items():
+        r = run_cli(cli, files, workdir=os.path.join(rdir, name))
         if r["rc"] != 0 or not r["target"]:
             detail[name] = {"rc": r["rc"], "note": r["out"][-200:]}
             if r["rc"] not in (0, 1):
@@ -87,7 +103,12 @@ def run_corpus(tag="corpus"):
             continue
         p = validate_doc(doc)
         detail[name] = {"rc": 0, "problems": p, "paths": list((doc.get("paths") or {}).keys())}
-        probs += ["%s: %s" % (name, x) for x in p]
+        for x in p:
+            m = re.match(r"operationId '([^']*)' is used by", x)
+            if m and any(re.search(r"operationId:\s*\"?%s\"?" % re.escape(m.group(1)), t) for t in files.values()):
+                KNOWN_IN_CORPUS.append(("operation-id-annotation-reused", "%s: %s" % (name, x)))     # the user's own id, written once, used twice
+            else:
+                probs.append("%s: %s" % (name, x))
     with open(os.path.join(rdir, "cmd"), "w") as f:
         f.write("#!/bin/sh\ncd /verif && exec ./check C03 --replay %s\n" % rdir)
     return probs, rdir, detail
@@ -442,11 +463,21 @@ def check():
     except KeyError as e:
         o.inconc(str(e))
 
+    # (4) operationId synthesis: different paths must not get the same identifier
+    opid_known = operation_id_lemma(o, L, M, bad, F)
+
     o.samples = [{"harness": h, "verdict": r["verdict"]} for h, r in kres.items()] + \
                 [{"query": q["name"], "verdict": q["verdict"]} for q in o.queries if q["engine"].startswith("mirsym")][:10]
     if True:   # the real-binary oracle is cheap: always run it (replay of a failing lemma, or translator validation)
         probs, rdir, detail = run_corpus()
         o.extra["real_cli_corpus"] = detail
+        for mode, msg in KNOWN_IN_CORPUS:
+            k = F.match("C03", {"mode": mode})
+            if k:
+                if k.get("what") not in o.known:
+                    o.known_finding(k["what"])
+            else:
+                probs.append(msg)
         if bad:
             if probs:
                 o.violation("emitted document not closed/valid; lemma(s): %s; real oal-cli output: %s" % ("; ".join(bad[:3]), "; ".join(probs[:4])), rdir)
@@ -455,6 +486,90 @@ def check():
         elif probs:
             o.oracle_only("validator reports %s although every lemma holds" % probs[:3], rdir)
     return o.finish()
+
+
+def operation_id_lemma(o, L, M, bad, F):
+    """xfer_id builds `method-seg1-seg2...`: a join with a separator over the segment labels. z3 (strings) is asked for two
+    different paths (<= 2 literal segments over the lexer's segment alphabet, lower case) with the same identifier; a model
+    is compiled with the real oal-cli and the validator confirms the duplicate."""
+    import z3
+    E = mirlib.enums()
+    try:
+        f = M.one(r"::xfer_id$")
+    except KeyError as e:
+        o.inconc(str(e)[:120])
+        return False
+    o.functions.append(mirlib.func_ref(f, "oal-openapi"))
+    ex = mirlib.executor([M])
+    sep = None
+    shape = False
+    for p in ex.run(f, arg_names=["self", "xfer", "method", "uri"]):
+        if p.kind != "return":
+            continue
+        for e in p.calls():
+            if e[1].endswith("::join") and len(e[2]) == 2 and e[2][1][0] == "c" and str(e[2][1][1]) == "str":
+                sep = str(e[2][1][2]).strip('"')
+                txt = ms.show(e[2][0])
+                shape = "Builder::method_label" in txt and "uri" in txt and ("iter::once" in txt or "once(" in txt)
+    if sep is None or not shape:
+        o.inconc("xfer_id: the synthesised identifier is not `join(sep, method label ++ segment labels)` any more - the injectivity query does not apply")
+        return False
+    m = re.search(r'#\[regex\("/(\[[^\]]+\])\+"\)\]\s*PathElementSegment', open(os.path.join(REPO, "oal-syntax/src/lexer.rs")).read())
+    cls = m.group(1) if m else "[0-9a-zA-Z%~_.-]"
+    o.extra["operation_id"] = {"separator": sep, "segment_alphabet": cls}
+    letters = z3.Range("a", "z")
+    extra = [z3.Re(ch) for ch in "-_.~" if ch in cls]
+    alpha = z3.Union(letters, *extra) if extra else letters
+    seg = z3.Concat(letters, z3.Star(alpha))          # starts with a letter (readable, and a valid segment)
+    s = z3.Solver()
+    s.set("timeout", 60000)
+
+    def mk(pre):
+        segs = [z3.String("%s%d" % (pre, i)) for i in range(2)]
+        n = z3.Int(pre + "n")
+        ident = z3.If(n == 1, z3.Concat(z3.StringVal("get" + sep), segs[0]), z3.Concat(z3.StringVal("get" + sep), segs[0], z3.StringVal(sep), segs[1]))
+        key = z3.If(n == 1, z3.Concat(z3.StringVal("/"), segs[0]), z3.Concat(z3.StringVal("/"), segs[0], z3.StringVal("/"), segs[1]))
+        cons = [n >= 1, n <= 2] + [z3.InRe(x, seg) for x in segs] + [z3.Length(x) <= 4 for x in segs]
+        return segs, n, ident, key, cons
+    ps, pn, pid, pkey, pc = mk("p")
+    qs, qn, qid, qkey, qc = mk("q")
+    s.add(pc + qc + [pkey != qkey, pid == qid])
+    import time
+    t0 = time.time()
+    r = s.check()
+    name = "xfer_id: two different paths never get the same synthesised operationId (<= 2 literal segments of <= 4 characters)"
+    o.query(name, "z3/strings", "sat" if r == z3.sat else "unsat" if r == z3.unsat else "unknown", time.time() - t0)
+    if r == z3.unsat:
+        return False
+    if r != z3.sat:
+        o.inconc("operationId injectivity query: solver answered %s" % r)
+        return False
+    md = s.model()
+
+    def path_of(segs, n):
+        k = md.eval(n).as_long()
+        return "".join("/" + md.eval(x).as_string() for x in segs[:k])
+    pa, pb = path_of(ps, pn), path_of(qs, qn)
+    src = "res %s on get -> <>;\nres %s on get -> <>;\n" % (pa, pb)
+    cli = build_cli()
+    rdir = new_replay_dir("C03", "operation-id")
+    r2 = run_cli(cli, {"main.oal": src}, workdir=os.path.join(rdir, "collision"))
+    dup = []
+    if r2["rc"] == 0 and r2["target"]:
+        dup = [x for x in validate_doc(mirlib.yaml_to_obj(r2["target"])) if x.startswith("operationId")]
+    with open(os.path.join(rdir, "cmd"), "w") as fh:
+        fh.write("#!/bin/sh\ncd %s/collision && exec %s -m main.oal -t out.yaml\n" % (rdir, cli))
+    o.extra["operation_id"]["model"] = [pa, pb]
+    what = "synthesised operationIds collide: `%s` and `%s` both get '%s'" % (pa, pb, md.eval(pid).as_string())
+    if dup:
+        k = F.match("C03", {"mode": "operation-id-collision"})
+        if k:
+            o.known_finding(k.get("what", what))
+            return True
+        o.violation("operationIds are not unique: %s; real oal-cli: %s" % (what, dup[0]), rdir)
+    else:
+        o.inconc("UNCONFIRMED: z3 finds colliding identifiers (%s) but the real oal-cli does not emit a duplicate (exit %s)" % (what, r2["rc"]))
+    return False
 
 
 def replay(path):
